@@ -658,13 +658,101 @@ fn many_recipients(rep: &mut Report, ctx: &Ctx, rng: &mut Rng) {
 }
 
 // ---------------------------------------------------------------------------------------------
+// (4) the writer configuration as a builder (config.rs): any call list, compared with the model
+
+fn builder(rep: &mut Report, model: &mut Model, ctx: &Ctx, rng: &mut Rng) {
+    use mla::Layers;
+    use mla::config::ArchiveWriterConfig;
+    let n = ctx.budget(150, 3000);
+    for _ in 0..n {
+        let dflt = rng.chance(1, 2);
+        let mut c = if dflt { ArchiveWriterConfig::default() } else { ArchiveWriterConfig::new() };
+        let (key0, nonce0) = (*c.encryption_key(), *c.encryption_nonce());
+        let mut ops: Vec<Value> = vec![];
+        let mut secrets: Vec<[u8; 32]> = vec![];
+        let lay = |l: u64| { let mut x = Layers::EMPTY; if l & 1 != 0 { x |= Layers::ENCRYPT; } if l & 2 != 0 { x |= Layers::COMPRESS; } x };
+        let mut refused_impl: Vec<bool> = vec![];
+        for _ in 0..rng.range(0, 8) {
+            match rng.below(5) {
+                0 => { let l = rng.below(4); c.enable_layer(lay(l)); ops.push(json!({"op":"enable","l":l})); refused_impl.push(false); }
+                1 => { let l = rng.below(4); c.disable_layer(lay(l)); ops.push(json!({"op":"disable","l":l})); refused_impl.push(false); }
+                2 => { let l = rng.below(4); c.set_layers(lay(l)); ops.push(json!({"op":"set","l":l})); refused_impl.push(false); }
+                3 => { let nlev = *rng.pick(&[0u32, 1, 5, 11, 12, 99]); let r = c.with_compression_level(nlev).is_err(); ops.push(json!({"op":"level","n":nlev})); refused_impl.push(r); }
+                _ => {
+                    let k = rng.below(3) as usize;
+                    let ks: Vec<[u8; 32]> = (0..k).map(|_| rand_key(rng)).collect();
+                    let pubs: Vec<x25519_dalek::PublicKey> = ks.iter().map(|s| x25519_dalek::PublicKey::from(&StaticSecret::from(*s))).collect();
+                    c.add_public_keys(&pubs);
+                    ops.push(json!({"op":"keys","keys": pubs.iter().map(|p| hx(p.as_bytes())).collect::<Vec<_>>()}));
+                    secrets.extend(ks);
+                    refused_impl.push(false);
+                }
+            }
+        }
+        let case = json!({"kind":"builder","default":dflt,"ops":ops});
+        rep.eval(hash_value(&case), ops.len() >= 3);
+        rep.count("builder");
+        let m = model.call(json!({"cmd":"config.run","default":dflt,"key":hx(&key0),"nonce":hx(&nonce0),"ops":ops}));
+        rep.traces_validated += 1;
+        // oracle (C07): no builder call touches the secrets drawn at construction
+        if *c.encryption_key() != key0 || *c.encryption_nonce() != nonce0 {
+            rep.violation("oracle", "C07/builder-secrets", json!({"check":"builder-secrets"}), "a builder call changed the symmetric key or the nonce drawn at construction", case.clone());
+            return;
+        }
+        let li = (c.is_layers_enabled(Layers::ENCRYPT) as u64) | ((c.is_layers_enabled(Layers::COMPRESS) as u64) << 1);
+        let refused_model: Vec<bool> = m["refused"].as_array().map(|a| a.iter().map(|x| x == true).collect()).unwrap_or_default();
+        if m["layers"].as_u64() != Some(li) || refused_model != refused_impl {
+            rep.violation("corr", "corr:C07/builder", json!({}), &format!("layer set / refusals after the builder calls: implementation {li} {:?}, model {} {:?}", refused_impl, m["layers"], refused_model), case.clone());
+            return;
+        }
+        // the archive built from it: as many wrapped keys as recipients listed, every one of them opens it
+        let usable = m["usable"] == true;
+        let sink = Sink::default();
+        let data = sink.data.clone();
+        match ArchiveWriter::from_config(sink, c) {
+            Ok(mut w) => {
+                if !usable { rep.violation("corr", "corr:C07/builder", json!({}), "the writer accepts a configuration the model calls unusable", case.clone()); return; }
+                let content = rng.bytes(40, 2);
+                if w.add_file("f", content.len() as u64, &content[..]).is_err() || w.finalize().is_err() { rep.violation("oracle", "C07/build", json!({"check":"builder-archive"}), "writing with a built configuration fails", case.clone()); return; }
+                drop(w);
+                let bytes = data.borrow().clone();
+                if li & 1 != 0 {
+                    let h = match parse_header(&bytes) { Ok(h) => h, Err(e) => { rep.violation("oracle", "C07/build", json!({"check":"header","class":e}), "header does not parse", case.clone()); return; } };
+                    if h.wrapped.len() != secrets.len() {
+                        rep.violation("oracle", "C07/recipient", json!({"check":"wrapped-count","builder":true}), &format!("{} wrapped keys for {} recipients passed to add_public_keys", h.wrapped.len(), secrets.len()), case.clone());
+                        return;
+                    }
+                    for (i, sk) in secrets.iter().enumerate() {
+                        if open_with(&bytes, &[*sk], "f").ok().as_ref() != Some(&content) {
+                            rep.violation("oracle", "C07/recipient", json!({"check":"recipient-opens","builder":true}), &format!("recipient {i} of {} (registered through the builder calls of this case) cannot open the archive", secrets.len()), case.clone());
+                            return;
+                        }
+                    }
+                    if rec_key(&bytes, &secrets) != Some(key0) {
+                        rep.violation("oracle", "C07/builder-secrets", json!({"check":"archive-key"}), "the archive is not encrypted with the key drawn at construction", case.clone());
+                        return;
+                    }
+                }
+                rep.branch("config.run:usable");
+            }
+            Err(_) => {
+                if usable { rep.violation("corr", "corr:C07/builder", json!({}), "the writer refuses a configuration the model calls usable", case.clone()); return; }
+                rep.branch("config.run:unusable");
+            }
+        }
+        if rep.full() { return; }
+    }
+}
+fn rec_key(bytes: &[u8], secrets: &[[u8; 32]]) -> Option<[u8; 32]> { recover(bytes, secrets).ok().map(|r| r.0) }
+
+// ---------------------------------------------------------------------------------------------
 
 /// descend from a replay file (the violation object written by `check`) to the case of this module
 fn my_case(r: &Value) -> &Value {
     let mut c = r;
     for _ in 0..4 {
         let k = c["kind"].as_str().unwrap_or("");
-        if ["markers", "corr", "freshness", "recipients"].contains(&k) {
+        if ["markers", "corr", "freshness", "recipients", "builder"].contains(&k) {
             return c;
         }
         if c.get("case").is_some() {
@@ -715,6 +803,7 @@ pub fn run(ctx: &Ctx) -> Report {
     if !CONSTS.scaled && !rep.full() {
         recipients(&mut rep, &mut model, ctx, &mut rng);
         many_recipients(&mut rep, ctx, &mut rng);
+        if !rep.full() { builder(&mut rep, &mut model, ctx, &mut rng); }
     }
     rep.assumptions.push("freshness is a statistical observation: N archives with identical inputs, in one process and across processes, never repeat a key, nonce, ephemeral key or wrapped key; bit balance within 6 sigma".into());
     rep.assumptions.push("absence of plaintext is observed on unique 128-bit markers (a chance occurrence in ciphertext has probability < 2^-100); pseudo-randomness of AES-CTR itself is assumed".into());
